@@ -237,6 +237,10 @@ class Driven:
         self.srv = mkserver([self.sess], control=self.ctl, identity_provider=IDP())
         self.dep = dep
         self.caps = BASE | (C.CLIENT_DEPRECATE_EOF if dep else 0)
+        if Driven._n % 3 == 0:
+            # every third client offers CLIENT_OPTIONAL_RESULTSET_METADATA; what is negotiated (peer.caps) is what the
+            # strict decoders go by
+            self.caps = self.caps | C.CLIENT_OPTIONAL_RESULTSET_METADATA
         self.peer = None
         self.cur = None            # (kind, ncols) of the command in flight, for classification
         self.cur_pkts = []
